@@ -29,7 +29,7 @@ def rel(loc):
 
 
 def units_for(tier):
-    us = [u for u in units_under("mtest/src") if re.search(r"(Parser|Scheme|MTestMain|PipeTest)", os.path.basename(u))]
+    us = [u for u in units_under("mtest/src") if re.search(r"(Parser|Scheme|MTestMain|PipeTest|^MTest\.cxx$)", os.path.basename(u))]
     us += [os.path.join(REPO, "src/Utilities/CxxTokenizer.cxx")]
     return sorted(set(us))
 
@@ -275,7 +275,74 @@ def smart_pointer_rule(rep, funcs, scope_re=r"::(set|handle|add|register)[A-Z]\w
     rep.count("dereferences of possibly-null smart-pointer members", nd)
 
 
-NULL_ACCEPTED = {}
+NULL_ACCEPTED = {
+    "NULL-GUARD@mtest::MTest::setGradientsInitialValues#this->b": "reached from an input file only through MTestParser::handleStrain (and its aliases), which calls getBehaviourType() first: it raises 'no behaviour defined' (replayed: '@Strain {...};' alone exits with that message); the python API can still call it on a scheme without behaviour",
+    "NULL-GUARD@mtest::MTest::setThermodynamicForcesInitialValues#this->b": "same as setGradientsInitialValues (handleStress calls getBehaviour() first; replayed)",
+}
+
+
+def erase_rule(rep, funcs):
+    """ERASE-THEN-USE: after 'c.erase(it)' whose result is not assigned back to 'it', the local iterator 'it' is invalid: it is neither
+    incremented, dereferenced nor compared before it is assigned again (maps and vectors alike)."""
+    ns = 0
+    for f in funcs:
+        if f.entry is None or f.parent is not None:
+            continue
+        pm = None
+        sites = {}
+        for s_, n in f.stmts.items():
+            if n["k"] == "CXXMemberCallExpr" and (n.get("callee") or "").endswith("::erase") and len(n.get("args") or []) == 1:
+                a = f.stmts.get(f.strip(n["args"][0]))
+                if a is not None and a["k"] == "DeclRefExpr" and a.get("local") and "iterator" in (a.get("declType") or ""):
+                    pm = pm or f.parent_map()
+                    q, assigned = s_, False
+                    for _ in range(4):
+                        q = pm.get(q)
+                        if q is None:
+                            break
+                        bo = f.binop(q)
+                        if bo and bo[0] == "=":
+                            l = f.stmts.get(f.strip(bo[1]))
+                            assigned = l is not None and l["k"] == "DeclRefExpr" and l.get("declId") == a.get("declId")
+                            break
+                    if not assigned:
+                        sites[s_] = (a["declId"], a["name"])
+        if not sites:
+            continue
+        ns += len(sites)
+        pm = pm or f.parent_map()
+        bad = []
+
+        def lhs_of_assignment(s_):
+            q = pm.get(s_)
+            while q is not None and f.stmts[q]["k"] in ("ImplicitCastExpr", "ParenExpr"):
+                s_, q = q, pm.get(q)
+            if q is None:
+                return False
+            bo = f.binop(q)
+            return bool(bo and bo[0] == "=" and f.strip(bo[1]) == f.strip(s_))
+
+        def el(st, b, i, e):
+            if "s" not in e:
+                return (st,)
+            s_ = e["s"]
+            n = f.stmts[s_]
+            if s_ in sites:
+                return (st | frozenset([sites[s_][0]]),)
+            if n["k"] == "DeclRefExpr" and n.get("declId") in st:
+                if lhs_of_assignment(s_):
+                    return (st - frozenset([n["declId"]]),)
+                bad.append((s_, n.get("name")))
+                return (st - frozenset([n["declId"]]),)
+            return (st,)
+        forward(f, (frozenset(),), el)
+        if bad:
+            s_, nm = bad[0]
+            rep.fail("ERASE-THEN-USE@%s#%s" % (f.qname.split("(")[0], nm), "%s: in %s the iterator '%s' is used after 'erase(%s)' whose result was not assigned "
+                     "back to it: it designates a freed node (SIGSEGV as soon as an element is erased)" % (rel(f.short_loc(s_)), f.qname.split("(")[0], nm, nm))
+        else:
+            rep.ok("%s: iterators passed to erase() are not used again before being assigned" % f.qname.split("(")[0], sample=False)
+    rep.count("erase(iterator) calls whose result is not assigned back", ns)
 
 
 def unsigned_reader_rule(rep, funcs):
@@ -364,6 +431,7 @@ def run(tier):
     import borrow
     borrow.rule(rep, funcs, lambda t: bool(ITER.search(t or "")), rel, 0)
     smart_pointer_rule(rep, funcs)
+    erase_rule(rep, funcs)
     main_catches_rule(rep)
     unsigned_reader_rule(rep, funcs)
     import progress
